@@ -1,6 +1,3 @@
-// HOW TO RUN (scratch copy of /repo only): copy this file to h3/src/tests/, add `mod c08_order;` next to `mod connection;`
-// in h3/src/tests/mod.rs, then `cargo test -p h3 --offline c08_` (also runs the c09_ tests of c08_c09.rs).
-// Pinned tree: every test here fails; with replays/C08/c08_c09_fix.diff applied: all pass, and so does the whole suite.
 // C08 on a scripted transport: request streams delivered out of stream-id order (the quic traits promise no order;
 // the accept loop itself says "some acceptable request streams arrive after rejected requests").
 use std::collections::VecDeque;
